@@ -128,9 +128,33 @@ class LinHooks:
                     rn = r.id if isinstance(r, ast.Name) else '%s.%s' % (r.value.id, r.attr)
                     per[rn] = per.get(rn, 0) + 1
                     self.store_ord[id(t)] = per[rn]
+        # (re)bindings of plain locals in textual order (chained `a = b = e` counts once per name)
+        self.assign_ord, perl = {}, {}
+        for n in stores:
+            for t in (n.targets if isinstance(n, ast.Assign) else [n.target]):
+                for x in ([t] if isinstance(t, ast.Name) else [y for y in ast.walk(t) if isinstance(y, ast.Name) and isinstance(y.ctx, ast.Store)] if isinstance(t, (ast.Tuple, ast.List)) else []):
+                    perl[x.id] = perl.get(x.id, 0) + 1
+                    self.assign_ord[id(x)] = perl[x.id]
         for s in self.sites:
+            if 'local' in s:
+                if 'of' in s and perl.get(s['local'], 0) != s['of']:
+                    raise E.Unsupported('assignment anchors drifted: %d bindings of `%s`, the contract was written for %d' % (perl.get(s['local'], 0), s['local'], s['of']))
+                continue
             if 'of' in s and per.get(s['container'], 0) != s['of']:
                 raise E.Unsupported('store anchors drifted: %d stores into `%s`, the contract was written for %d' % (per.get(s['container'], 0), s['container'], s['of']))
+
+    def on_assign(self, eng, st, tgt, val, node):
+        """sites with local=<name>: the value the nth textual (re)binding of that local receives (evaluated before the binding, so
+        the specification reads the old value of the local under its own name)"""
+        for site in self.sites:
+            if site.get('local') != tgt.id or self.assign_ord.get(id(tgt)) != site.get('nth'):
+                continue
+            t, facts = eng.spec(site['spec'], st, {'__arg': val}, mode='prove')
+            s2 = st.fork()
+            for x in facts:
+                s2.assume(x)
+            eng.oblige(s2, 'site/%s@L%d' % (site['name'], node.lineno), t, kind='assign-site')
+            st.ghost['n_site_' + site['name']] = st.ghost.get('n_site_' + site['name'], z3.IntVal(0)) + 1
 
     def _applies(self, site, tgt):
         return 'nth' not in site or self.store_ord.get(id(tgt)) == site['nth']
@@ -257,7 +281,7 @@ class LinHooks:
             if nm is None:
                 return NotImplemented
             for site in self.sites:
-                if site['container'] != nm or not self._applies(site, tgt):
+                if site.get('container') != nm or not self._applies(site, tgt):
                     continue
                 t, facts = eng.spec(site['spec'], st, {'__arg': val, '__key': k}, mode='prove')
                 s2 = st.fork()
@@ -280,7 +304,7 @@ class LinHooks:
         if isinstance(tgt.value, ast.Attribute) and isinstance(tgt.value.value, ast.Name):
             nm = '%s.%s' % (tgt.value.value.id, tgt.value.attr)
             for site in self.sites:
-                if site['container'] != nm or not self._applies(site, tgt):
+                if site.get('container') != nm or not self._applies(site, tgt):
                     continue
                 t, facts = eng.spec(site['spec'], st, {'__arg': val, '__key': k}, mode='prove')
                 s2 = st.fork()
@@ -298,7 +322,7 @@ class LinHooks:
         if isinstance(tgt.value, ast.Name):
             nm = tgt.value.id
             for site in self.sites:
-                if site['container'] != nm or not self._applies(site, tgt):
+                if site.get('container') != nm or not self._applies(site, tgt):
                     continue
                 t, facts = eng.spec(site['spec'], st, {'__arg': val, '__key': k}, mode='prove')
                 s2 = st.fork()
